@@ -50,6 +50,16 @@ def _slot_functions(ctx) -> list[str]:
                 q_ = "sigma.conversion.base.Backend." + d.split(".", 1)[1]
                 if q_ not in out:
                     out.append(q_)
+            elif d.startswith("self._") and d.count(".") == 1:
+                # a private helper that dispatches to the per-rule converters for one member of the collection
+                hm = prog.lookup_method("sigma.conversion.base.Backend", d[5:])
+                if hm is not None:
+                    for c2 in (x for x in ast.walk(hm.node) if isinstance(x, ast.Call)):
+                        d2 = call_name(c2)
+                        if d2.startswith("self.convert"):
+                            q_ = "sigma.conversion.base.Backend." + d2.split(".", 1)[1]
+                            if q_ not in out:
+                                out.append(q_)
     if not out:
         raise AnalysisError(f"{CONVERT}: no per-rule conversion call found inside a comprehension")
     return out
@@ -227,7 +237,18 @@ def r2_only_sigma_errors(ctx) -> None:
     slots = _slot_functions(ctx)
     for root in slots:
         fi_root = prog.func(root)
-        collected = _collected_classes(prog, fi_root)
+        # which non-Sigma exception classes the per-rule function records and contains in collecting mode: the function
+        # interpreted (sa.tabulate, Proxy) with an exception of each built-in class injected into the conversion stage
+        import builtins as _bi
+        from .standins import run_per_rule_converter as _rprc
+        collected = set()
+        for nm_ in ("NotImplementedError", "ValueError", "TypeError", "KeyError", "IndexError", "AttributeError", "RuntimeError", "RecursionError", "Exception"):
+            try:
+                o_ = _rprc(ctx, fi_root.name, fail_at="convert", collect=True, fail_with=getattr(_bi, nm_)("injected"))
+            except AnalysisError:
+                continue
+            if o_.raised is None and o_.ret == [] and any(isinstance(e_, tuple) and len(e_) == 2 and e_[0] is o_.rule for e_ in (o_.errors or [])):
+                collected.add(nm_)
         r.analysed.setdefault("C08.collected_non_sigma_classes", {})[root] = sorted(collected)
         reach = cg.reachable([root])
         scope = sorted(q for q in reach if q in prog.funcs and q.startswith(("sigma.conversion.", "sigma.backends.")))
